@@ -48,6 +48,12 @@ pub fn bf_case(p: BParams, user_pct: u32) -> BoxedStrategy<BFCase> {
         .boxed()
 }
 
+/// set once by `params` / by the engine: generators that have no tier argument of their own (the DHW grammar) read it
+pub static THOROUGH: std::sync::atomic::AtomicBool = std::sync::atomic::AtomicBool::new(false);
+pub fn is_thorough() -> bool {
+    THOROUGH.load(std::sync::atomic::Ordering::Relaxed)
+}
+
 pub fn params(tier: Tier) -> BParams {
     let mut p = BParams::std(tier == Tier::Quick);
     // auxiliary-bearing systems whose only service is NEPB or COGEN are valid input (the
